@@ -27,7 +27,10 @@ RULE = ("(a) exhaustive FIRM tie grid: fcst, obs, threshold in {0,1,2,NaN}^3 x b
         "implementation vs regenerated kernel vs proved specification, plus the Murphy link and the mirror relation on the implementation; "
         "(b) random firm calls: 1-3 dims of size 1-3, obs on a dim subset, 1-3 thresholds each a scalar or an array with NaN, threshold weights "
         "scalar or array with NaN (and non-positive ones), all discount / assignment / alpha / request spellings incl. invalid ones; values on "
-        "the grid k/2 shared with the thresholds so obs==threshold / fcst==threshold ties occur in most cases; (c) exhaustive risk-matrix cell "
+        "the grid k/2 shared with the thresholds so obs==threshold / fcst==threshold ties occur in most cases; 15% of them with data 0..6 stored "
+        "in a random (un)signed integer dtype, Python-int scalar thresholds and same-dtype array thresholds; (b') integer-dtype probe: 25 "
+        "(fcst, obs) pairs x {uint8..uint64, int8..int64, float32} x thresholds as Python ints / NumPy scalars / same-dtype DataArray / floats "
+        "x discount {None,0,1,2,5/2,10,inf} x both assignments against the exact oracle on the values; (c) exhaustive risk-matrix cell "
         "grid (forecast probability on / off each threshold, obs 0/1/NaN, both assignments); (d) random risk_matrix_score calls with random "
         "weight matrices, shuffled coordinates, NaN, weights, malformed inputs; (e) matrix_weights_to_array and weights_from_warning_scaling on "
         "random and all small valid scaling matrices. A case is distinct by the hash of (function, inputs, options); non-trivial when an output "
@@ -182,6 +185,57 @@ def firm_scalar_threshold_probe(ctx):
                                           dict(case0, fcst=fv, obs=ov), e, x)
     ctx.case(("firm_scalar_threshold_probe",), nontrivial=True)
     ctx.count("firm_scalar_threshold_points", n)
+
+
+INT_DTYPES = ["uint8", "uint16", "uint32", "uint64", "int8", "int16", "int32", "int64"]
+
+
+def firm_integer_dtype_probe(ctx, dtypes=None):
+    """data stored in integer dtypes (unsigned counts / oktas / packed amounts; signed) and float32, thresholds given as plain Python
+    integers, NumPy integers, an integer DataArray of the same dtype, or floats; discounting off / finite (int and float) / inf: the
+    penalties are functions of the VALUES -- a difference taken on the side where it is negative must not leak into the result through
+    unsigned wrap-around -- so every per-case component equals the exact oracle evaluated on the values (= firm on the float64 copy)"""
+    CAT, _, _ = S()
+    rng = ctx.rng
+    vals = [0, 1, 2, 3, 5]
+    cases = [(a_, b_) for a_ in vals for b_ in vals]
+    idx = {"case": range(len(cases))}
+    n = 0
+    dtypes = list(dtypes or INT_DTYPES + ["float32"])
+    for dt in dtypes:
+        if not ctx.time_left():
+            break
+        f = xr.DataArray(np.array([c[0] for c in cases], dtype=dt), dims=["case"], coords=idx)
+        o = xr.DataArray(np.array([c[1] for c in cases], dtype=dt), dims=["case"], coords=idx)
+        tda = xr.DataArray(np.array([vals[(k * 2 + k // 5) % 5] for k in range(len(cases))], dtype=dt), dims=["case"], coords=idx)
+        npint = getattr(np, dt)
+        specs = [("python ints", [1, 3], [1, 2]),
+                 ("numpy scalars of the data dtype", [npint(2), npint(3)], [2, 1]),
+                 ("DataArray of the data dtype + python int", [tda, 2], [1.0, 3]),
+                 ("floats off the integer grid", [1.5, 3.0], [1.0, 0.5])]
+        for kind, ths, wts in specs:
+            for d in (None, 0, 1, 2, 2.5, 10, INF):
+                assign = rng.choice(["lower", "upper"]) if d in (None, 0) else None
+                for asg in ([assign] if assign else ["lower", "upper"]):
+                    a = rng.choice([Fraction(1, 4), Fraction(7, 10)])
+                    st, r = core.call_impl(CAT.firm, f, o, float(a), ths, wts, discount_distance=d, preserve_dims="all", threshold_assignment=asg)
+                    case0 = {"dtype of fcst and obs": dt, "categorical_thresholds": kind + ": " + str([gens.da_repr(t)["values"] if isinstance(t, xr.DataArray) else float(t) for t in ths]),
+                             "threshold_weights": wts, "risk_parameter": a, "discount_distance": d, "threshold_assignment": asg}
+                    ctx.case(("firm_int_dtype", dt, kind, str(d), asg, str(a)))
+                    if st != "ok":
+                        ctx.violation("firm raises on valid integer-typed data", case0, "values", r)
+                        continue
+                    for k, (fv, ov) in enumerate(cases):
+                        tws = [(float(t.values[k]) if isinstance(t, xr.DataArray) else float(t), w) for t, w in zip(ths, wts)]
+                        exp = firm_cell_oracle(float(fv), float(ov), a, tws, d, asg)
+                        n += 1
+                        for name, e in zip(FVARS, exp):
+                            x = float(r[name].values[k])
+                            if not core.close(x, e, tol=4e-7 if dt == "float32" else core.TOL):    # float32 data are scored in float32 arithmetic
+                                ctx.violation(f"firm {name} on {dt} data differs from sum_j w_j * penalty_j evaluated on the values (exact oracle; the result must "
+                                              "not depend on the storage dtype)", dict(case0, fcst=fv, obs=ov, thresholds_at_this_case=[t for t, _ in tws]), e, x)
+    ctx.case(("firm_integer_dtype_probe",), nontrivial=True)
+    ctx.count("firm_integer_dtype_points", n)
 
 
 def murphy_da_link(ctx):
@@ -413,6 +467,7 @@ def mwa_oracle_check(ctx, n):
 def oracle_checks(ctx, scale=1):
     firm_oracle_grid(ctx)
     firm_scalar_threshold_probe(ctx)
+    firm_integer_dtype_probe(ctx)
     murphy_da_link(ctx)
     rms_oracle_grid(ctx)
     firm_oracle_random(ctx, ctx.n(60 * scale, 600 * scale))
@@ -500,8 +555,13 @@ def firm_grid(ctx):
 def gen_firm_case(ctx):
     rng = ctx.rng
     grid = [Fraction(k, 2) for k in range(-4, 5)]
+    # integer mode: fcst / obs stored in a (possibly unsigned) integer dtype, scalar thresholds given as Python ints, array thresholds
+    # possibly of the same integer dtype (no NaN in integer arrays)
+    idt = rng.choice(INT_DTYPES) if rng.random() < 0.15 else None
+    if idt:
+        grid = [Fraction(k) for k in range(0, 7)]
     sizes = gens.rand_sizes(rng, names=["a", "b", "c"], maxdims=3, maxsize=3)
-    fcst = gens.rand_da(rng, sizes, values=grid, nan_p=rng.choice([0.0, 0.15]))
+    fcst = gens.rand_da(rng, sizes, values=grid, nan_p=0.0 if idt else rng.choice([0.0, 0.15]))
     odims = gens.sub_dims(rng, sizes, p_drop=0.25)
     osizes = dict(sizes)
     bad = []
@@ -509,12 +569,16 @@ def gen_firm_case(ctx):
         osizes["z"] = 2
         odims = odims + ["z"]
         bad.append("obs_extra_dim")
-    obs = gens.rand_da(rng, osizes, dims=odims, values=grid, nan_p=rng.choice([0.0, 0.15]))
+    obs = gens.rand_da(rng, osizes, dims=odims, values=grid, nan_p=0.0 if idt else rng.choice([0.0, 0.15]))
+    if idt:
+        fcst, obs = fcst.astype(idt), obs.astype(idt)
     k = rng.randint(1, 3)
     ths, wts = [], []
     for _ in range(k):
         if rng.random() < 0.5:
-            ths.append(NAN if rng.random() < 0.08 else float(rng.choice(grid)))
+            ths.append(NAN if rng.random() < 0.08 else int(rng.choice(grid)) if idt else float(rng.choice(grid)))
+        elif idt and rng.random() < 0.6:
+            ths.append(gens.rand_da(rng, dict(sizes), dims=gens.sub_dims(rng, sizes, p_drop=0.5), values=grid).astype(idt))
         else:
             ts = dict(sizes)
             td = gens.sub_dims(rng, sizes, p_drop=0.5)
@@ -570,7 +634,7 @@ def gen_firm_case(ctx):
             wd = wd + ["q"]
         w = gens.rand_da(rng, ws, dims=wd, lo=0, hi=3, nan_p=0.1 if rng.random() < 0.3 else 0.0)
     rd, pd = gens.rand_dimspec(rng, list(sizes), allow_bad=rng.random() < 0.3)
-    return dict(fcst=fcst, obs=obs, alpha=alpha, ths=ths, wts=wts, d=d, assign=assign, w=w, rd=rd, pd=pd, bad=bad)
+    return dict(fcst=fcst, obs=obs, alpha=alpha, ths=ths, wts=wts, d=d, assign=assign, w=w, rd=rd, pd=pd, bad=bad, idt=idt)
 
 
 def firm_kwargs(c):
@@ -588,7 +652,7 @@ def firm_desc(c):
     return {"fn": "firm", "fcst": gens.da_repr(c["fcst"]), "obs": gens.da_repr(c["obs"]), "risk_parameter": c["alpha"],
             "categorical_thresholds": [gens.da_repr(t) for t in c["ths"]], "threshold_weights": [gens.da_repr(t) for t in c["wts"]],
             "discount_distance": c["d"], "threshold_assignment": c["assign"], "weights": gens.da_repr(c["w"]),
-            "reduce_dims": c["rd"], "preserve_dims": c["pd"]}
+            "reduce_dims": c["rd"], "preserve_dims": c["pd"], **({"dtype of fcst, obs and integer thresholds": c["idt"]} if c.get("idt") else {})}
 
 
 def firm_full(ctx):
@@ -612,6 +676,8 @@ def firm_full(ctx):
             ctx.count("firm:malformed=" + b)
         if any(isinstance(t, xr.DataArray) for t in c["ths"]):
             ctx.count("firm:array_threshold")
+        if c["idt"]:
+            ctx.count("firm:integer_dtype=" + ("unsigned" if c["idt"].startswith("u") else "signed"))
         if any(isinstance(t, xr.DataArray) for t in c["wts"]):
             ctx.count("firm:array_threshold_weight")
         if i < 2:
